@@ -3,7 +3,6 @@ package h
 import (
 	"time"
 
-	sdkmath "cosmossdk.io/math"
 	storetypes "github.com/cosmos/cosmos-sdk/store/types"
 	sdk "github.com/cosmos/cosmos-sdk/types"
 	authtypes "github.com/cosmos/cosmos-sdk/x/auth/types"
@@ -67,7 +66,14 @@ func NewStreamEnv(now time.Time) *StreamEnv {
 // AnyValidatorFee: a validator-fee Dec in [0,1] with 2-decimal granularity is what Validate()
 // accepts? (checked in C16); here any raw value in [0, 10^18].
 func AnyValidatorFee(name string) sdk.Dec {
-	d := rt.DecRaw(name, 0, 60)
-	rt.Assume(rt.IntLe(rt.DecRawOf(d), sdkmath.NewIntFromUint64(1000000000000000000)))
-	return d
+	return rt.DecRawMax(name, "1000000000000000000")
+}
+
+// AnyBlockTime: a block time between 1970-01-01T00:00:01Z and the end of year 9998 (stated bound:
+// CometBFT block times are after the genesis time of a chain started in 2020, and a chain running
+// in year 9999 is outside every claim).
+func AnyBlockTime(name string) time.Time {
+	t := rt.Time(name)
+	rt.Assume(rt.And(t.Unix() >= 1, t.Unix() <= 253370764800))
+	return t
 }
